@@ -11,6 +11,7 @@ import (
 
 	"github.com/ipld/go-storethehash/store/freelist"
 	"github.com/ipld/go-storethehash/store/types"
+	"github.com/ipld/go-storethehash/store/verifhook"
 )
 
 type IndexRemapper struct {
@@ -96,6 +97,7 @@ func upgradePrimary(ctx context.Context, filePath, headerPath string, maxFileSiz
 		if err != nil {
 			return 0, fmt.Errorf("could not apply freelist to primary: %w", err)
 		}
+		verifhook.At("upgrade.primary.freelist_applied")
 	}
 
 	fileNum, err := chunkOldPrimary(ctx, filePath, int64(maxFileSize))
@@ -103,13 +105,16 @@ func upgradePrimary(ctx context.Context, filePath, headerPath string, maxFileSiz
 		return 0, fmt.Errorf("error chunking primary: %w", err)
 	}
 
+	verifhook.At("upgrade.primary.chunked")
 	if err = writeHeader(headerPath, newHeader(maxFileSize)); err != nil {
 		return 0, fmt.Errorf("error writing primary info file: %w", err)
 	}
+	verifhook.At("upgrade.primary.header_written")
 
 	if err = os.Remove(filePath); err != nil {
 		return 0, fmt.Errorf("cannot remove old primary: %w", err)
 	}
+	verifhook.At("upgrade.primary.old_removed")
 
 	log.Infow("Replaced old primary with multiple files", "replaced", filePath, "files", fileNum+1)
 	log.Infof("Upgraded primary from version 0 to %d", PrimaryVersion)
@@ -192,6 +197,7 @@ func chunkOldPrimary(ctx context.Context, name string, fileSizeLimit int64) (uin
 				return 0, err
 			}
 			outFile.Close()
+			verifhook.At("upgrade.primary.chunk_written")
 			if ctx.Err() != nil {
 				return 0, ctx.Err()
 			}
@@ -299,6 +305,7 @@ func applyFreeList(ctx context.Context, freeList *freelist.FreeList, filePath st
 			if err != nil {
 				return fmt.Errorf("cannot write to primary file %s: %w", flFile.Name(), err)
 			}
+			verifhook.At("upgrade.primary.fl.marked")
 
 			count++
 
